@@ -417,9 +417,9 @@ def run(ctx, rep):
             t = blk["t"]
             if t["k"] == "switch" and len(t["targets"]) >= 2:
                 covered |= {names[int(v)] for v, _ in t["targets"] if int(v) < len(names)}
-        # every Expr variant that hands on (a view of) one operand without computing a new value: index, field, and `get`
-        want = {"Value", "Index", "DotLookup", "UnaryUnwrap"}
-        rep.ob("C10.guard", "root_ident follows identifiers, index steps, field steps and `get`", "ok" if want <= covered else "violated",
+        # every Expr variant that hands on (a view of) one operand without computing a new value: index, field, `get`, and `(x) or y`
+        want = {"Value", "Index", "DotLookup", "UnaryUnwrap", "NilEval"}
+        rep.ob("C10.guard", "root_ident follows identifiers, index steps, field steps, `get` and `or`", "ok" if want <= covered else "violated",
                "variants handled: %s" % sorted(covered), rt.span, fn=rt.path, key="C10.guard|root-ident-shape")
     else:
         rep.ob("C10.guard", "root_ident helper", "undecided", "Expr::root_ident not found (the const test may be written inline)", ft.span, fn=ft.path)
@@ -504,6 +504,15 @@ def run(ctx, rep):
     dom = bool(marks) and all(rules.call_dominates(pc, marks, b) for b in oks)
     rep.ob("C10.read-only", "a class name is marked const before the class is accepted", "ok" if dom else "violated", "", pc.span, fn=pc.path,
            key="C10.read-only|class")
+    # the alias of a class is a second name of the class (its constructor is called through it): read-only like the class name
+    ta_ = F.fn("compiler::parser::Parser::type_alias")
+    if ta_ is not None:
+        regs_ = ta_.calls_to("compiler::ast::ident::Ident::link_force_no_inherit") + ta_.calls_to("compiler::parser::AssocFileData::add_dependency")
+        marks_ = ta_.calls_to("compiler::ast::ident::Ident::mark_const")
+        okm = bool(regs_) and bool(marks_) and all(rules.call_dominates(ta_, marks_, r.bb) for r in regs_)
+        rep.ob("C10.read-only", "the name a `type` alias of a class registers as a variable is marked const first", "ok" if (okm or not regs_) else "violated",
+               "" if (okm or not regs_) else "`type Kitty Cat` registers Kitty without Ident::mark_const: `Kitty = Cat()` rebinds the class's other name",
+               (regs_[0].span if regs_ else ta_.span), fn=ta_.path, key="C10.read-only|type-alias")
     imn = need(F, "compiler::parser::Parser::import_names")
     marks = imn.calls_to("compiler::ast::ident::Ident::mark_const")
     rep.ob("C10.read-only", "names bound by `import a, b from m` are created const", "ok" if marks else "violated",
